@@ -177,4 +177,24 @@ theorem tie_scenario_states_neg (obs : List (Nat × Obst)) (t : Int) (ht : t < 0
   have : ¬ (0 ≤ t) := by omega
   simp [CR.Py.assert, CR.Py.isNat, this, bind, Except.bind]
 
+/-- the checked form the scenario histories of the harness are compared with (`occupanciesAtChk`): for EVERY integer step the
+    current source answers what the hand model answers, the AssertionError for negative steps included. -/
+theorem tie_scenario_occupancies_chk (obs : List (Nat × Obst)) (t : Int) (role : Option Role) :
+    Gen.Scenario_occupancies_at_time_step obs t role =
+      (occupanciesAtChk obs t role).map (fun l => l.map (fun x => some x.2)) := by
+  unfold occupanciesAtChk
+  by_cases h : t < 0
+  · rw [tie_scenario_occupancies_neg obs t role h]; simp [h, Except.map]
+  · rw [tie_scenario_occupancies obs t role (by omega)]; simp [h, Except.map]
+
+theorem tie_scenario_states_chk (obs : List (Nat × Obst)) (t : Int) :
+    (t < 0 → Gen.Scenario_obstacle_states_at_time_step obs t = .error .assert ∧ statesAtChk obs t = .error .assert) ∧
+    (0 ≤ t → ∃ l, Gen.Scenario_obstacle_states_at_time_step obs t = .ok l ∧ statesAtChk obs t = .ok (statesAt obs t) ∧
+      ∀ i s, (i, some s) ∈ l ↔ (i, s) ∈ statesAt obs t) := by
+  constructor
+  · intro h; exact ⟨tie_scenario_states_neg obs t h, by simp [statesAtChk, h]⟩
+  · intro h
+    obtain ⟨l, hl, _, hm⟩ := tie_scenario_states obs t h
+    exact ⟨l, hl, by simp [statesAtChk, show ¬ t < 0 by omega], hm⟩
+
 end CR.Occ
